@@ -34,6 +34,26 @@ class RawPeer(object):
         self.incoming = []
         self.on_request = None       # callable(peer, seq, args) -> reply payload (kind, boxed) | None
         self.ended = None
+        self.early = []
+        # nested conversations: while the real side waits for an answer (inside serve), the peer gets to act
+        self.a.idle_hook = self._idle
+
+    def _idle(self, stream):
+        progress = False
+        while True:
+            m = self.take()
+            if m is None:
+                break
+            if m[0] == R.REQUEST:
+                self.incoming.append(m)
+                if self.on_request is not None:
+                    rep = self.on_request(self, m[1], m[2])
+                    if rep is not None:
+                        self.send_payload((rep[0], m[1], rep[1]))
+                        progress = True
+            else:
+                self.early.append(m)
+        return progress
 
     # ---- low level
     def send_payload(self, value):
@@ -79,7 +99,7 @@ class RawPeer(object):
         self.send_payload((R.REQUEST, seq, args))
         self.pump()
         while True:
-            m = self.take()
+            m = self.early.pop(0) if self.early else self.take()
             if m is None:
                 return (self.ended or "none", None)
             kind, s, a = m
